@@ -39,7 +39,7 @@ Refs(n) == IF Derived > 0 THEN TempRefs(n) \cup {[k |-> "p", i |-> 0], [k |-> "c
 NOut(op, n) == IF op = "ToBinary" THEN n
                ELSE IF op = "GDecoder3" THEN 3
                ELSE IF op = "GPartition" THEN 2
-               ELSE IF op \in {"AssertIsEqual", "AssertIsDifferent", "AssertIsBoolean", "AssertIsCrumb", "AssertIsLessOrEqual", "PlonkGate"} THEN 0
+               ELSE IF op \in {"AssertIsEqual", "AssertIsDifferent", "AssertIsBoolean", "AssertIsCrumb", "AssertIsLessOrEqual", "PlonkGate", "GRangePlain"} THEN 0
                ELSE 1
 
 L2Patterns == { <<[k |-> "p", i |-> 0], [k |-> "p", i |-> 1], [k |-> "s", i |-> 0], [k |-> "c", i |-> 2]>>,
@@ -58,7 +58,8 @@ ChooseOp ==
   /\ Len(prog) < MaxLen /\ cur = NoCur
   /\ \E op \in OpSet :
        \E w \in (IF op = "ToBinary" THEN {1, 3, FieldBits, FieldBits + 1} ELSE IF op \in {"PlonkExpr", "PlonkGate"} THEN {1, 2, 3}
-                  ELSE IF op = "GPartition" THEN {1, 3, 5} ELSE {0}) :
+                  ELSE IF op = "GPartition" THEN {1, 3, 5}
+                  ELSE IF op = "GRangePlain" THEN {1, 3, FieldBits - 1, FieldBits, FieldBits + 1} ELSE {0}) :
          cur' = [op |-> op, a |-> <<>>, n |-> w]
   /\ UNCHANGED <<prog, nt, done>>
 
